@@ -3,7 +3,12 @@ package props
 import (
 	"fmt"
 	"math/rand"
+	"os"
+	"os/exec"
+	"path/filepath"
 	"reflect"
+	"regexp"
+	"strconv"
 	"strings"
 	"unsafe"
 
@@ -16,34 +21,34 @@ import (
 // C13 — validation is total: bad input or bad rules yield an error, never a crash.
 
 type c13Node struct {
-	A  string             `valid:"required"`
-	N  int                `valid:"ge=0"`
-	P  *c13Node           `valid:"exist"`
-	PP **c13Node          `valid:"exist"`
-	S  []*c13Node         `valid:"exist"`
-	V  []c13Node          `valid:"exist"`
+	A  string              `valid:"required"`
+	N  int                 `valid:"ge=0"`
+	P  *c13Node            `valid:"exist"`
+	PP **c13Node           `valid:"exist"`
+	S  []*c13Node          `valid:"exist"`
+	V  []c13Node           `valid:"exist"`
 	M  map[string]*c13Node `valid:"exist"`
-	R  *c13Node           `valid:"required"`
-	I  interface{}        `valid:"required"`
-	E1 string             `valid:"either=1"`
-	E2 string             `valid:"either=1"`
+	R  *c13Node            `valid:"required"`
+	I  interface{}         `valid:"required"`
+	E1 string              `valid:"either=1"`
+	E2 string              `valid:"either=1"`
 }
 
 type c13Odd struct {
-	C  chan int        `valid:"required"`
-	F  func()          `valid:"required"`
-	X  complex128      `valid:"required,ge=1"`
-	U  unsafe.Pointer  `valid:"required"`
-	I  interface{}     `valid:"exist"`
-	PI *int            `valid:"required"`
-	PS *string         `valid:"exist"`
-	MI map[int]string  `valid:"required,unique"`
-	A  [2]string       `valid:"required,unique,ints"`
-	B  bool            `valid:"required,in=(true)"`
-	AA [0]int          `valid:"required"`
-	SS [][]string      `valid:"required,unique"`
-	MM map[string]int  `valid:"exist"`
-	SI []interface{}   `valid:"exist,unique"`
+	C  chan int       `valid:"required"`
+	F  func()         `valid:"required"`
+	X  complex128     `valid:"required,ge=1"`
+	U  unsafe.Pointer `valid:"required"`
+	I  interface{}    `valid:"exist"`
+	PI *int           `valid:"required"`
+	PS *string        `valid:"exist"`
+	MI map[int]string `valid:"required,unique"`
+	A  [2]string      `valid:"required,unique,ints"`
+	B  bool           `valid:"required,in=(true)"`
+	AA [0]int         `valid:"required"`
+	SS [][]string     `valid:"required,unique"`
+	MM map[string]int `valid:"exist"`
+	SI []interface{}  `valid:"exist,unique"`
 }
 
 // Field names that start with a caseless letter are legal Go identifiers but NOT exported; reading
@@ -55,7 +60,7 @@ type c13Caseless struct {
 	ある string   `valid:"botheq=1"`
 	いる string   `valid:"botheq=1"`
 	A  string   `valid:"required"`
-	子 *c13Node `valid:"exist"`
+	子  *c13Node `valid:"exist"`
 }
 
 type c13Call struct {
@@ -220,10 +225,14 @@ func init() {
 	core.Register(&core.Prop{
 		ID: "C13",
 		Rule: "(a) directed catalogue, complete: 41 nil / wrong-kind / nested-nil shapes x 23 entry-point variants, map and URL shapes x 7 rule sets; (b) grammar-aware rule mutation: every rule key x 80 argument mutations (missing, empty, foreign, ~ count 0..3, non-numeric / overflowing bounds, brackets missing / reversed / nested, quotes unbalanced / escaped / empty, 0..6 datetime separators, layout-like separators, invalid regex, 70 KB arguments, NUL and invalid UTF-8) x 33 values of every kind through Var, Struct(RM), Map and Url; " +
-			"(c) random bytes as rule text x random run-time synthesised struct values with nil at every level through Struct / StructForFn / NestedStructForRule, plus ValidNamesSplit, ParseValidNameKV, GenValidKV, GetOnlyExplainErr on random bytes. Every call is wrapped in recover(); process-fatal errors are attributed through the journal. distinct = distinct (entry, input description); non-trivial = call reached the library with a non-default input",
+			"(c) random bytes as rule text x random run-time synthesised struct values with nil at every level through Struct / StructForFn / NestedStructForRule, plus ValidNamesSplit, ParseValidNameKV, GenValidKV, GetOnlyExplainErr on random bytes; (d) thorough tier only: four native Go fuzz targets (coverage-guided, iteration-bounded) over Var, Struct/NestedStructForRule, Map/Url and the text helpers. Every call is wrapped in recover(); process-fatal errors are attributed through the journal. distinct = distinct (entry, input description); non-trivial = call reached the library with a non-default input",
 		Shards: func(t core.Tier) int { return 16 },
 		Run:    runC13,
+		Parent: parentC13,
 		Check: func(r *core.Result, t core.Tier) {
+			if t == core.Thorough && r.Counters["fuzz_targets_run"] < 4 {
+				r.Inconc(fmt.Sprintf("coverage-guided fuzz targets run: %d of 4", r.Counters["fuzz_targets_run"]))
+			}
 			if r.Counters["catalogue_calls"] == 0 || r.Counters["catalogue_calls"] != r.Counters["catalogue_size"] {
 				r.Inconc(fmt.Sprintf("catalogue incomplete: %d of %d", r.Counters["catalogue_calls"], r.Counters["catalogue_size"]))
 			}
@@ -368,4 +377,102 @@ func runC13(c *core.Ctx) {
 		res.Eval(4)
 	}
 	_ = rand.Int
+}
+
+var (
+	reFuzzExecs = regexp.MustCompile(`execs: (\d+)`)
+	reFuzzFile  = regexp.MustCompile(`Failing input written to (\S+)`)
+)
+
+// parentC13: the sharded deterministic tiers, then (thorough only) the native fuzz targets of
+// harness/fuzz as a coverage-guided workload generator.
+func parentC13(p *core.ParentCtx) *core.Result {
+	res := core.DefaultParent(p)
+	if p.Tier == core.Thorough {
+		runFuzzTargets(res, "C13", []string{"FuzzVar", "FuzzStruct", "FuzzMapUrl", "FuzzText"})
+	}
+	return res
+}
+
+// runFuzzTargets runs `go test -fuzz` (iteration-bounded) on targets of harness/fuzz. A crasher
+// found there is a violation; the failing input is copied into the witness and removed from the
+// source tree.
+func runFuzzTargets(res *core.Result, prop string, targets []string) {
+	dir := os.Getenv("VMON_HARNESS_DIR")
+	if dir == "" {
+		res.Inconc("VMON_HARNESS_DIR not set: cannot run the fuzz targets")
+		return
+	}
+	iters := os.Getenv("VMON_FUZZ_ITERS")
+	if iters == "" {
+		iters = "400000"
+	}
+	for _, target := range targets {
+		args := []string{"test"}
+		if mf := os.Getenv("VMON_MODFLAG"); mf != "" {
+			args = append(args, mf)
+		}
+		args = append(args, "./fuzz/", "-run", "^$", "-fuzz", "^"+target+"$", "-fuzztime", iters+"x", "-parallel", "8")
+		cmd := exec.Command("go", args...)
+		cmd.Dir = dir
+		out, err := cmd.CombinedOutput()
+		txt := string(out)
+		n := int64(0)
+		for _, m := range reFuzzExecs.FindAllStringSubmatch(txt, -1) {
+			if v, e := strconv.ParseInt(m[1], 10, 64); e == nil && v > n {
+				n = v
+			}
+		}
+		res.Count("fuzz_execs|"+target, n)
+		res.Eval(n)
+		if err == nil {
+			res.Count("fuzz_targets_run")
+			continue
+		}
+		if strings.Contains(txt, "panic:") || strings.Contains(txt, "--- FAIL") || strings.Contains(txt, "fatal error:") {
+			res.Count("fuzz_targets_run")
+			input := ""
+			if m := reFuzzFile.FindStringSubmatch(txt); m != nil {
+				f := filepath.Join(dir, "fuzz", m[1])
+				if b, e := os.ReadFile(f); e == nil {
+					input = string(b)
+				}
+				os.Remove(f)
+			}
+			os.RemoveAll(filepath.Join(dir, "fuzz", "testdata"))
+			msg := ""
+			for _, l := range strings.Split(txt, "\n") {
+				if i := strings.Index(l, "panic: "); i >= 0 {
+					msg = strings.TrimSpace(l[i:])
+					break
+				}
+				if i := strings.Index(l, "fatal error: "); i >= 0 {
+					msg = strings.TrimSpace(l[i:])
+					break
+				}
+			}
+			fn := "?"
+			for _, l := range strings.Split(txt, "\n") {
+				if i := strings.Index(l, core.LibPkg); i >= 0 {
+					t := strings.TrimSpace(l[i:])
+					fn = strings.TrimPrefix(t, core.LibPkg)
+					if i := strings.Index(fn, "("); i > 0 && !strings.HasPrefix(fn, "valid.(") {
+						fn = fn[:i]
+					}
+					break
+				}
+			}
+			res.Violate(prop+"|fuzz|"+target+"|"+core.NormMsg(msg), fmt.Sprintf("fuzz target %s crashed in %s: %s — failing input: %s", target, fn, msg, trunc(input, 600)),
+				map[string]string{"target": target, "failing_input_file": input, "output_tail": trunc(txt[maxInt(0, len(txt)-3000):], 3000)})
+			continue
+		}
+		res.Inconc(fmt.Sprintf("fuzz target %s could not be run: %s", target, trunc(txt, 400)))
+	}
+}
+
+func maxInt(a, b int) int {
+	if a > b {
+		return a
+	}
+	return b
 }
